@@ -210,6 +210,38 @@ theorem isGeneric_false_of_not_mem {α} (d : List (Str × α)) (req all : List S
   rw [List.all_eq_false]
   exact ⟨k, hk, by simpa using hn⟩
 
+theorem bestKeys_eq_self (Γ : Ctx) (cfg : ParserConfig) (pool : List ClassId) (keys : List Str) (k' : ClassId)
+    (hpool : pool.filter (localNamesMatch Γ keys) = [k']) : bestKeys Γ cfg pool keys = keys := by
+  unfold bestKeys
+  split
+  · rfl
+  · have hmem : k' ∈ pool.filter (localNamesMatch Γ keys) := by rw [hpool]; exact List.mem_cons_self ..
+    rw [List.mem_filter] at hmem
+    obtain ⟨hk'p, hk'm⟩ := hmem
+    rw [List.filter_eq_self]
+    intro k hk
+    rw [List.any_eq_true]
+    refine ⟨k', hk'p, ?_⟩
+    unfold localNamesMatch at hk'm ⊢
+    cases hmn : matchNames Γ k' with
+    | none => simp [hmn] at hk'm
+    | some ln =>
+      simp only [hmn, List.all_eq_true] at hk'm
+      simpa using hk'm k hk
+
+/-- when exactly one class of the pool declares the keys and its trial decode has the single result `x`,
+`bind_best_dataclass` has the single result `x` (whatever the configuration and the iteration order) -/
+theorem bindBest_unique (rec : Rec) (Γ : Ctx) (cfg : ParserConfig) (ordered : Bool) (pool : List ClassId)
+    (kvs : List (Str × J)) (k' : ClassId) (x : Val)
+    (hpool : pool.filter (localNamesMatch Γ (kvKeys kvs)) = [k'])
+    (hdec : ∀ cfg' : ParserConfig, rec cfg' k' (.obj kvs) = ND.pure x) :
+    bindBestWith rec Γ cfg ordered pool (.obj kvs) = ND.pure x := by
+  unfold bindBestWith
+  simp only [bestKeys_eq_self Γ cfg pool _ k' hpool, hpool]
+  unfold findBestWith
+  simp only [List.map_cons, List.map_nil, hdec]
+  cases ordered <;> simp [ND.run, ND.pure, maxScore, ND.choose] <;> rfl
+
 theorem bindItem_obj (e : BEnv) (Γ : Ctx) (fac : Factory) (n : Nat) (ih : IH e Γ fac n) (cfg : ParserConfig)
     (m : XmlMeta) (var : XmlVar) (hv : varOKj var = true) (k k' : ClassId) (fs' : List (Str × Val))
     (hc : var.clazz = some k) (hok : valOKj e Γ fac n k' (.obj k' fs') = true)
@@ -248,10 +280,7 @@ theorem bindItem_obj (e : BEnv) (Γ : Ctx) (fac : Factory) (n : Nat) (ih : IH e 
   · have hsubs' : (subclassesOf Γ k).isEmpty = false := by simpa using hsubs
     simp only [hsubs', Bool.false_eq_true, if_false, beq_iff_eq] at hpool
     simp only [hsubs', Bool.not_false, if_true]
-    unfold bindBestWith
-    simp only [hkeys, hpool, List.map_cons, List.map_nil, hdec]
-    simp [ND.run, ND.pure, maxScore, ND.choose]
-    rfl
+    exact bindBest_unique _ Γ cfg false _ kvs k' _ (by rw [hkeys]; exact hpool) hdec
 
 def isNoneV : Val → Bool
   | .none => true
